@@ -106,6 +106,12 @@ for _n in ("d", "points", "viewBox", "style", "title", "alt", "value", "placehol
         ATTRIBUTE_PROBES.append({"kids": [], "dicts": [], "kw": [[_n, S_(_v)]]})
 
 
+# a positional attribute dict stays an attribute dict whatever the other attributes say (type=..., role=..., is=...)
+for _ty in ("application/json", "module", "text/css", "application/ld+json", "checkbox", "hidden", "submit", "text/template", "importmap"):
+    ATTRIBUTE_PROBES.append({"kids": [_T("x")], "dicts": [[["data-a", S_("1")], ["id", S_("i")]]], "kw": [["type", S_(_ty)]]})
+    ATTRIBUTE_PROBES.append({"kids": [], "dicts": [[["data-a", S_("1")]], [["a", S_("b")], ["c", {"t": "num", "v": 1}]]], "kw": [["type", S_(_ty)], ["role", S_("r")]]})
+
+
 # sizes ordinary calls never reach
 # things that are not children: alone, and next to valid arguments - refused by every function exactly as Tag() refuses them
 INVALID_PROBES = []
